@@ -1,10 +1,46 @@
-"""C05 — chunked (restartable) decoding gives the same result as one-shot decoding."""
+"""C05 — chunked (restartable) decoding gives the same result as one-shot decoding.
+
+No OER skip region is left: F10 (SEQUENCE_decode_oer, resume inside the extension addition bitmap) and F54
+(CHOICE_decode_oer, incomplete open type of an extension alternative) are repaired; `directed_module` keeps their
+former witnesses and neighbourhood under test at every split point."""
 import collections, re
 from .. import build, core, genmod, bundle, gfind
 from . import c01
 from .. import c05_stream
 
 SYN = [("der", "ber"), ("oer", "oer"), ("xer", "xer"), ("cxer", "xer")]
+
+def directed_module():
+    """OER restart bookkeeping of extensible types (findings F10 / F54, repaired): the former witnesses Q and V and their
+    neighbourhood — addition bitmaps of 1 and 2 octets, additions that are themselves extensible, length-prefixed
+    extension alternatives, extensible types nested in extension additions — with fixed values whose additions are present."""
+    T = lambda k, **kw: dict(k=k, **kw)
+    I8 = T("INTEGER", cons=genmod.cons(0, 255))
+    OS = lambda: T("OCTET STRING", size=None)
+    def sq(comps, ext=None):
+        t = T("SEQUENCE", comps=[dict(id=c[0], type=c[1], **({"opt": c[2]} if len(c) > 2 else {})) for c in comps])
+        if ext is not None: t["ext"] = ext
+        return t
+    def ch(alts, ext=None):
+        t = T("CHOICE", comps=[dict(id=i, type=ty) for i, ty in alts])
+        if ext is not None: t["ext"] = ext
+        return t
+    types = []; vals = {}
+    def add(n, t, vs): types.append((n, t)); vals[n] = vs
+    add("Q", sq([("a", I8), ("b", T("OCTET STRING", size=genmod.cons(2, 2)), "OPTIONAL"), ("c", T("BOOLEAN"))], ext=2),
+        [{"a": 7, "c": True}, {"a": 7, "b": b"xy", "c": False}])
+    add("V", ch([("a", T("NULL")), ("b", T("BOOLEAN")), ("c", OS())], ext=1),
+        [("a", None), ("b", True), ("c", b"ab"), ("c", b""), ("c", bytes(range(130)))])
+    add("Q10", sq([("r", T("BOOLEAN"))] + [(f"x{i}", I8 if i % 2 else OS(), "OPTIONAL") for i in range(10)], ext=1),
+        [{"r": True}, {"r": True, "x0": b"abc"}, {"r": False, "x9": 200}, {"r": True, **{f"x{i}": (i if i % 2 else bytes([i]) * i) for i in range(10)}}])
+    add("QN", sq([("a", I8), ("q", T("REF", name="Q"), "OPTIONAL"), ("v", T("REF", name="V"), "OPTIONAL")], ext=1),
+        [{"a": 1}, {"a": 1, "q": {"a": 2, "c": True}}, {"a": 1, "v": ("c", b"hello")}, {"a": 1, "q": {"a": 9, "b": b"zz", "c": False}, "v": ("b", False)}])
+    add("VN", ch([("n", T("NULL")), ("q", T("REF", name="Q")), ("l", T("SEQUENCE OF", elem=T("REF", name="V"), size=None))], ext=1),
+        [("n", None), ("q", {"a": 3, "c": True}), ("l", []), ("l", [("c", b"ab"), ("a", None), ("b", True)])])
+    add("QL", T("SEQUENCE OF", elem=T("REF", name="QN"), size=None),
+        [[{"a": 1, "q": {"a": 2, "c": True}}, {"a": 3}, {"a": 4, "v": ("c", b"xyz")}]])
+    add("QEmpty", sq([], ext=0), [{}])
+    return {"name": "C05D", "tagdefault": "AUTOMATIC", "types": types}, vals
 
 def run(ctx):
     ctx.lean()
@@ -14,7 +50,8 @@ def run(ctx):
     mods = c01.gen_bundles(ctx, nb)
     stats = collections.Counter()
     fails = []
-    for m in mods:
+    dm, dvals = directed_module()
+    for m in [dm] + mods:
         txt = genmod.module_text(m); env = dict(m["types"])
         b = bundle.Bundle(m["name"], txt, [n for n, _ in m["types"]])
         try: exe = b.build()
@@ -24,12 +61,10 @@ def run(ctx):
         enc_lines, meta = [], []
         for n, t in m["types"]:
             feats = gfind.features(t, env)
-            for v in vg.values(t, nvals):
+            for v in (dvals[n] if m is dm else vg.values(t, nvals)):
                 sx = genmod.val_sexp(t, v, env)
                 for syn, dsyn in SYN:
                     if c01.skip_region(syn, feats, collections.Counter()): continue
-                    if syn == "oer" and "ext:SEQUENCE" in feats: stats["skipped_F10"] += 1; continue
-                    if syn == "oer" and "ext:CHOICE" in feats: stats["skipped_F54"] += 1; continue
                     enc_lines.append(f"@{n} enc {syn} {sx}"); meta.append((n, syn, dsyn))
         outs, _ = ctx.run_c_bisect(exe, enc_lines)
         # K leg of the streaming BER decoder model (Impl/BerStream.lean): C per-step trace vs model trace
